@@ -35,10 +35,10 @@ CASE_TIMEOUT = 600
 
 
 def plan(seed, tier):
-    n = 40 if tier == "quick" else 600
+    n = 40 if tier == "quick" else 4000
     cases = [{"class": "direct", "index": i, "order": ["generated", "decoys_shuffled", "all_shuffled"][i % 3],
               "ties": bool(i % 4 == 3), "cost": 2} for i in range(n)]
-    m = 12 if tier == "quick" else 160
+    m = 12 if tier == "quick" else 800
     cases += [{"class": "files", "index": i, "order": ["generated", "decoys_shuffled", "all_shuffled"][i % 3],
                "fmt": ["pin", "parquet"][i % 2], "cost": 6} for i in range(m)]
     return cases
